@@ -57,16 +57,30 @@ def _spec_worker(args):
         out["status"] = "exc"
         return out
     out["status"] = "spec"
+    # the start class through the specification, then (keyword arguments in the opposite order, which must not matter) the start
+    # class again and some other classes of the specification through their own rules
+    others = [c for c in spec.rules_dict if c != root and not c.is_atom() and not c.is_empty()]
+    others.sort(key=lambda c: -len(c.extra_parameters))
+    targets = [(root, lambda n, kw: spec.random_sample_object_of_size(n, **kw), False),
+               (root, lambda n, kw: spec.random_sample_object_of_size(n, **kw), True)]
+    for c in others[:4]:
+        targets.append((c, (lambda rule: lambda n, kw: rule.random_sample_object_of_size(n, **kw))(spec.get_rule(c)), len(targets) % 2 == 1))
     try:
         with rngenum.Patched():
-            for n in range(N + 1):
-                for params in root.possible_parameters(n):
-                    objs = sorted(root.objects_of_size(n, **params))
-                    dist = rngenum.distribution(lambda: spec.random_sample_object_of_size(n, **params), limit=3000)
+            for cls_, sampler, flip in targets:
+              if flip and len(cls_.extra_parameters) < 2 and cls_ == root:
+                continue
+              for n in range(N + 1):
+                for params in cls_.possible_parameters(n):
+                    objs = sorted(cls_.objects_of_size(n, **params))
+                    kw = dict(reversed(list(params.items()))) if flip else dict(params)
+                    if not objs and cls_ != root:
+                        continue  # the refusal for sizes without objects is documented for the specification's own method
+                    dist = rngenum.distribution(lambda: sampler(n, kw), limit=3000)
                     out["cases"] += 1
                     if not objs:
                         if set(dist) != {"EXC:InvalidOperationError"}:
-                            out["problems"].append(("empty-size-not-refused", f"n={n} {params}: {dict(dist)}"))
+                            out["problems"].append(("empty-size-not-refused", f"{cls_!r} n={n} {kw}: {dict(dist)}"))
                         continue
                     if any(isinstance(k, str) and k.startswith("EXC:NotImplementedError") for k in dist):
                         out["status"] = "sampling-not-implemented"
@@ -74,7 +88,7 @@ def _spec_worker(args):
                     want = {o: Fraction(1, len(objs)) for o in objs}
                     got = {str(k): v for k, v in dist.items()}
                     if got != {str(k): v for k, v in want.items()}:
-                        out["problems"].append(("not-uniform", f"n={n} {params}: {({k: str(v) for k, v in got.items()})} expected 1/{len(objs)} each of {objs}"))
+                        out["problems"].append(("not-uniform", f"{cls_!r} n={n} {kw}: {({k: str(v) for k, v in got.items()})} expected 1/{len(objs)} each of {objs}"))
                         return out
                     if len(out["samples"]) < 1 and len(objs) > 2:
                         out["samples"].append(f"n={n} {params}: {len(objs)} objects each with probability 1/{len(objs)}")
@@ -159,6 +173,7 @@ def run(tier, seed, factor=1):
         cfgs.append(dict(gram=[rnd.choice(["S", "S", "M", "M", "F", "Y", "E"]) for _ in range(rnd.choice([1, 2, 2]))], gram_flat=True, alpha="ab",
                          db=rnd.choice(["RuleDB", "RuleDBForgetStrategy", "RuleDBForest"]), seed=rnd.randrange(10**6), perc=rnd.choice([100, 20, 1]),
                          smallest=False, expand_verified=False))
+    cfgs += [specrun.perm_config(rnd) for _ in range(max(16, len(cfgs) // 10))]  # paths whose backward maps do not commute
     outs = specrun.pool_map(spec_worker, [(c, N) for c in cfgs])
     specrun.quiet()
     for o in outs:
